@@ -73,7 +73,9 @@ let run_case v line =
     let traces = Array.make k [] in      (* per session: reversed list of (local event, calls ISSUED) *)
     let arrived = Array.make k [] in     (* per session: reversed list of calls ARRIVED at the provider *)
     let atrace = Array.make k [] in      (* per session: reversed list of (notification, calls ARRIVED during it) *)
-    let wrapped_at = Array.make k max_int in   (* op index at which the session's u64 cumulative first wrapped *)
+    (* wrapped_at.(j).(q): op index at which counter q (0 in-octets, 1 out-octets, 2 in-packets, 3 out-packets) of session
+       j first wrapped - per counter: a wrap of one counter says nothing about the others *)
+    let wrapped_at = Array.init k (fun _ -> Array.make 4 max_int) in
     let cur_op = ref 0 in
     let pruned = Array.make k false in   (* excuse P: the session's accounting was dropped by an orphan prune *)
     let delayed = Array.make k false in  (* excuse D: a Start of the session was held back *)
@@ -95,7 +97,10 @@ let run_case v line =
     let step_one ev =
       let before = !g in
       List.iteri (fun j s0 -> match project bk (nat_of_int j) ev with
-          | Some le -> if wrapped_at.(j) = max_int && lstep_wraps v (List.nth tys j) s0 le then wrapped_at.(j) <- !cur_op
+          | Some le ->
+            let w = lstep_wraps4 v (List.nth tys j) s0 le in
+            List.iteri (fun q f -> if f && wrapped_at.(j).(q) = max_int then wrapped_at.(j).(q) <- !cur_op)
+              [w.w_rxb; w.w_txb; w.w_rxp; w.w_txp]
           | None -> ()) before;
       let r = gstep v bk tys !g ev in
       g := List.map fst r;
@@ -238,6 +243,9 @@ let run_case v line =
         (* brk / mono / snt / ord are judged on what ARRIVED at the provider, stp on the notifications *)
         let brk = bracketed false arr and stp = stops_ok false t and mono = nondecreasing c4z arr
         and snt = nondecreasing_sent c4z arr and ord = strictT BClosed (List.rev atrace.(j)) in
+        (* sent-monotone bit of counter q alone: the extracted [mono_outs] with the other three counters waived *)
+        let snt_q q = fst (mono_outs { w_rxb = q <> 0; w_txb = q <> 1; w_rxp = q <> 2; w_txp = q <> 3 } c4z arr) in
+        let wrapped_q q = wrapped_at.(j).(q) < max_int in
         let ibrk = bracketed false (outputs t) and imono = nondecreasing c4z (outputs t)
         and isnt = nondecreasing_sent c4z (outputs t) and iord = strictT BClosed t in
         let gj = List.nth tys j in
@@ -259,9 +267,12 @@ let run_case v line =
         and exc_g = ghosted.(j)      (* only set for variants without fix_ghost *)
         and exc_q = forgot.(j) && not v.fix_presend in
         let any = exc_p || exc_d || exc_g || exc_q in
+        ignore snt;
         let unexcused = (not brk && not any) || (not stp && not exc_g) || (not mono && not (wraps || any))
-                        || (not snt && not (wraps || any)) || (not ord && not any) in
-        Printf.sprintf "v%d=%s%s%s%s%s%s%s%s%s%s%s" j (b brk) (b stp) (b mono) (b snt) (b ord)
+                        || List.exists (fun q -> not (snt_q q) && not (wrapped_q q || any)) [0; 1; 2; 3]
+                        || (not ord && not any) in
+        Printf.sprintf "v%d=%s%s%s%s%s%s%s%s%s%s%s%s%s%s" j (b brk) (b stp) (b mono)
+          (b (snt_q 0)) (b (snt_q 1)) (b (snt_q 2)) (b (snt_q 3)) (b ord)
           (if pruned.(j) then "P" else "") (if delayed.(j) then "D" else "")
           (if detached_seen.(j) then "G" else "") (if forgot.(j) then "Q" else "")
           (if unexcused then "UNEXCUSED" else "") (if bug then "MODELBUG" else "")) ss in
@@ -269,26 +280,33 @@ let run_case v line =
      wrapped_at)
   | _ -> raise Bad
 
-(* Outside the property's domain: once a session's uint64 cumulative has wrapped (true total >= 2^64) the property says
-   nothing about its counter VALUES any more.  From that operation on, the implementation's counter values for that
-   session are taken as they are (calls, kinds, order, success flags, cache / bucket / checkpoint structure and the
-   bracket bits are still compared): the model's token is replaced by the implementation's when both have the same
-   shape.  Nothing else is masked. *)
+(* Outside the property's domain, PER COUNTER.  Once counter q of a session has wrapped (its true total reached 2^64) the
+   property no longer constrains q - but it still constrains the other three: each must keep being non-decreasing.
+   Their VALUES may legitimately differ from the model's after the wrap (the re-baselining decision of applyVPPCounters
+   looks at all four counters at once, so an implementation that keeps a different - equally admissible - floor for the
+   wrapped counter re-baselines the others at different moments), therefore from the wrapping operation on the
+   implementation's counter values of that session are admissible iff its own per-counter monitor says so:
+     - values (call tokens, L/P/B of the dump): taken from the implementation;
+     - the sent-monotone bit of every counter that did NOT wrap: still compared (must be what the theorem
+       C09_monotone_per_counter predicts: 1) - this is the admissibility check, computed by the harness on the
+       implementation's own stream;
+     - the sent-monotone bit of the wrapped counter and the all-counters acknowledged bit: free;
+     - calls, kinds, order, flags, cache/bucket/checkpoint structure, bracket bits: still compared. *)
 let split_on_str sep s = Str.split_delim (Str.regexp_string sep) s
-let tok_session t =   (* "I3:..." -> Some 3 *)
+let tok_session t =
   if String.length t >= 2 && String.contains "SIEKF" t.[0] then
     (let i = ref 1 in while !i < String.length t && t.[!i] >= '0' && t.[!i] <= '9' do incr i done;
      if !i > 1 then Some (int_of_string (String.sub t 1 (!i - 1))) else None)
   else None
-let tok_shape t =     (* kind, session, trailing flag *)
-  let f = String.split_on_char ':' t in
-  (String.make 1 t.[0], tok_session t, (if t.[0] = 'I' then List.nth f (List.length f - 1) else ""), List.length f)
-let mask_counters re m i = (* same skeleton once the counter fields are blanked *)
-  let blank x = Str.global_replace re "#" x in
-  if blank m = blank i then i else m
-let c4_re = Str.regexp "[0-9]+:[0-9]+:[0-9]+:[0-9]+"
-let mask_line (model : string) (impl : string) (wrapped_at : int array) : string =
-  if Array.for_all (fun x -> x = max_int) wrapped_at then model else
+(* merge the four counter fields f.(off..off+3) of two field arrays: field q from the implementation iff free q *)
+let merge_fields free (m : string array) (i : string array) off =
+  if Array.length m <> Array.length i || Array.length m < off + 4 then m
+  else Array.mapi (fun n x -> if n >= off && n < off + 4 && free (n - off) then i.(n) else x) m
+let same_except m i off = (* equal outside the four counter fields *)
+  Array.length m = Array.length i &&
+  (let ok = ref true in Array.iteri (fun n x -> if (n < off || n >= off + 4) && x <> i.(n) then ok := false) m; !ok)
+let mask_line (model : string) (impl : string) (wrapped_at : int array array) : string =
+  if Array.for_all (Array.for_all (fun x -> x = max_int)) wrapped_at then model else
   match split_on_str " ; " model, split_on_str " ; " impl with
   | [mg; md; mv], [ig; idp; iv] ->
     let groups s = List.filter (fun x -> x <> "") (List.map String.trim (split_on_str "]" s)) in
@@ -300,31 +318,45 @@ let mask_line (model : string) (impl : string) (wrapped_at : int array) : string
         let used = Hashtbl.create 8 in
         let mt' = List.map (fun t ->
             match tok_session t with
-            | Some j when j < Array.length wrapped_at && wrapped_at.(j) <= oi ->
-              (* the n-th token of session j in the model group <-> the n-th token of session j in the impl group *)
+            | Some j when j < Array.length wrapped_at ->
               let n = try Hashtbl.find used j with Not_found -> 0 in
               Hashtbl.replace used j (n + 1);
               let cands = List.filter (fun x -> tok_session x = Some j) it in
               (match List.nth_opt cands n with
-               | Some x when tok_shape x = tok_shape t -> x
-               | _ -> t)
+               | Some x ->
+                 let mf = Array.of_list (String.split_on_char ':' t) and xf = Array.of_list (String.split_on_char ':' x) in
+                 if same_except mf xf 1 then
+                   String.concat ":" (Array.to_list (merge_fields (fun _ -> Array.exists (fun x -> x <= oi) wrapped_at.(j)) mf xf 1))
+                 else t
+               | None -> t)
             | _ -> t) mt in
         "[" ^ String.concat " " mt' ^ "]") (List.combine mgs igs) in
     let per_session f ms is =
       let ml = tokens ms and il = tokens is in
       if List.length ml <> List.length il then ms else
-        String.concat " " (List.mapi (fun j (m, i) -> if j < Array.length wrapped_at && wrapped_at.(j) < max_int then f m i else m)
-                             (List.combine ml il)) in
-    let d' = if md = "racy" || md = "held" then md else per_session (mask_counters c4_re) md idp in
-    let v' = per_session (fun m i ->
-        (* v<j>=<brk><stp><mono><snt><ord><letters>: mono and snt follow the implementation *)
+        String.concat " " (List.mapi (fun j (m, i) -> if j < Array.length wrapped_at then f j m i else m) (List.combine ml il)) in
+    let free_ever j q = wrapped_at.(j).(q) < max_int in
+    let d' = if md = "racy" || md = "held" then md else
+        per_session (fun j m i ->
+            (* s<j>=b1,c1,...,L1:2:3:4,P...,B...,d1,x5,L...: merge the c4 of every L/P/B element *)
+            let me = String.split_on_char ',' m and ie = String.split_on_char ',' i in
+            if List.length me <> List.length ie then m else
+              String.concat "," (List.map2 (fun a b ->
+                  if String.length a > 1 && String.contains "LPB" a.[0] && String.length b > 1 && a.[0] = b.[0] then
+                    let af = Array.of_list (String.split_on_char ':' (String.sub a 1 (String.length a - 1)))
+                    and bf = Array.of_list (String.split_on_char ':' (String.sub b 1 (String.length b - 1))) in
+                    if Array.length af = 4 && Array.length bf = 4 then
+                      String.make 1 a.[0] ^ String.concat ":" (Array.to_list (merge_fields (fun _ -> List.exists (free_ever j) [0; 1; 2; 3]) af bf 0))
+                    else a
+                  else a) me ie)) md idp in
+    let v' = per_session (fun j m i ->
+        (* v<j>=<brk><stp><mono><s0><s1><s2><s3><ord>...: s_q follows the implementation iff counter q wrapped; mono iff any did *)
         match String.index_opt m '=', String.index_opt i '=' with
-        | Some a, Some b when a = b && String.length m >= a + 6 && String.length i >= b + 6 ->
+        | Some a, Some b when a = b && String.length m >= a + 9 && String.length i >= b + 9 ->
           let mm = Bytes.of_string m in
-          Bytes.set mm (a + 3) i.[b + 3]; Bytes.set mm (a + 4) i.[b + 4];
-          let r = Bytes.to_string mm in
-          (* an UNEXCUSED mark that was only due to the masked bits is re-evaluated by comparison: keep the model's *)
-          r
+          if List.exists (free_ever j) [0; 1; 2; 3] then Bytes.set mm (a + 3) i.[b + 3];
+          List.iter (fun q -> if free_ever j q then Bytes.set mm (a + 4 + q) i.[b + 4 + q]) [0; 1; 2; 3];
+          Bytes.to_string mm
         | _ -> m) mv iv in
     String.concat " " g' ^ " ; " ^ d' ^ " ; " ^ v'
   | _ -> model
